@@ -405,6 +405,11 @@ def compare(case, impl, model):
             _cmp_trace(v["ops"], model["trace"], dis, where=f"storeStates={v['store']!r}: ")
     else:
         drv = model["_drv"]
+        try:
+            if drv.p.poll() is not None or drv.p.stdin.closed:
+                drv = core.Driver()
+        except Exception:
+            drv = core.Driver()
         pre = [["new", 2021] + list(case["nv"]), ["build"]]
         r0 = drv.call({"op": "c04_chunks", "sigmaPos": _sigma_pos(case), "pre": pre})["pre"]
         if impl["init_evs"] != r0["evs"][0] + r0["evs"][1]:
